@@ -876,4 +876,457 @@ theorem foldN_holds (blocks : List (List Nat)) (k h : Nat) (hd : 2 ^ k ∣ block
     rw [hget] at hle
     exact hbits.mono hle
 
+/-! ## UTF-8 -/
+
+theorem utf8Encode_append (a b : List Nat) : utf8Encode (a ++ b) = utf8Encode a ++ utf8Encode b := by
+  induction a with
+  | nil => rfl
+  | cons c cs ih => simp [utf8Encode, ih, List.append_assoc]
+
+theorem encodeChar_length (c : Nat) : (encodeChar c).length = lenUtf8 c := by
+  unfold encodeChar lenUtf8
+  split
+  · rfl
+  · split
+    · rfl
+    · split <;> rfl
+
+theorem lenUtf8_pos (c : Nat) : 0 < lenUtf8 c := by
+  unfold lenUtf8
+  split
+  · omega
+  · split
+    · omega
+    · split <;> omega
+
+/-- shape of an encoded char: a non-continuation lead byte followed by continuation bytes -/
+theorem encodeChar_shape (c : Nat) : ∃ b0 rest, encodeChar c = b0 :: rest ∧ isCont b0 = false ∧
+    ∀ b ∈ rest, isCont b = true := by
+  unfold encodeChar
+  by_cases h1 : c < 0x80
+  · refine ⟨c, [], by simp [h1], ?_, by simp⟩
+    simp [isCont]; omega
+  · by_cases h2 : c < 0x800
+    · refine ⟨0xC0 + c / 64, [0x80 + c % 64], by simp [h1, h2], ?_, ?_⟩
+      · simp [isCont]
+      · intro b hb; simp at hb; subst hb; simp [isCont]; omega
+    · by_cases h3 : c < 0x10000
+      · refine ⟨0xE0 + c / 4096, [0x80 + c / 64 % 64, 0x80 + c % 64], by simp [h1, h2, h3], ?_, ?_⟩
+        · simp [isCont]; omega
+        · intro b hb; simp at hb; rcases hb with rfl | rfl <;> (simp [isCont]; omega)
+      · refine ⟨0xF0 + c / 262144, [0x80 + c / 4096 % 64, 0x80 + c / 64 % 64, 0x80 + c % 64], by simp [h1, h2, h3], ?_, ?_⟩
+        · simp [isCont]; omega
+        · intro b hb; simp at hb; rcases hb with rfl | rfl | rfl <;> (simp [isCont]; omega)
+
+theorem isCharBoundary_zero (data : List Nat) : isCharBoundary data 0 = true := by simp [isCharBoundary]
+
+/-- boundaries of `p ++ r` at or after `|p|` are the boundaries of `r` (when `r` starts a char or is empty) -/
+theorem isCharBoundary_append (p r : List Nat) (x : Nat) (hx : p.length < x) :
+    isCharBoundary (p ++ r) x = isCharBoundary r (x - p.length) := by
+  unfold isCharBoundary
+  have h1 : x ≠ 0 := by omega
+  have h2 : x - p.length ≠ 0 := by omega
+  simp only [h1, h2, if_false]
+  rw [List.getElem?_append_right (by omega)]
+  cases r[x - p.length]? with
+  | some b => rfl
+  | none => simp only [List.length_append]; congr 1; apply propext; omega
+
+/-- **prefix-code lemma**: a char boundary of an encoded string splits it into the
+encodings of a prefix and a suffix of the char sequence -/
+theorem boundary_split (cs : List Nat) : ∀ (x : Nat), x ≤ (utf8Encode cs).length →
+    isCharBoundary (utf8Encode cs) x = true →
+    ∃ k, (utf8Encode cs).take x = utf8Encode (cs.take k) ∧ (utf8Encode cs).drop x = utf8Encode (cs.drop k) := by
+  induction cs with
+  | nil => intro x hx _; exact ⟨0, by simp [utf8Encode], by simp [utf8Encode]⟩
+  | cons c cs ih =>
+    intro x hx hb
+    obtain ⟨b0, rest, henc, hlead, hcont⟩ := encodeChar_shape c
+    have hlen : (encodeChar c).length = rest.length + 1 := by rw [henc]; simp
+    by_cases hx0 : x = 0
+    · subst hx0; exact ⟨0, by simp [utf8Encode], by simp⟩
+    · by_cases hlt : x < (encodeChar c).length
+      · -- strictly inside the first char: a continuation byte, not a boundary
+        exfalso
+        obtain ⟨x', rfl⟩ : ∃ x', x = x' + 1 := ⟨x - 1, by omega⟩
+        have hx' : x' < rest.length := by omega
+        have hget : (utf8Encode (c :: cs))[x' + 1]? = some rest[x'] := by
+          simp only [utf8Encode]
+          rw [List.getElem?_append_left hlt]
+          simp only [henc, List.getElem?_cons_succ]
+          exact List.getElem?_eq_getElem hx'
+        unfold isCharBoundary at hb
+        simp only [hx0, if_false, hget, Bool.not_eq_true'] at hb
+        have := hcont rest[x'] (List.getElem_mem hx')
+        rw [this] at hb; cases hb
+      · have hge : (encodeChar c).length ≤ x := by omega
+        simp only [utf8Encode, List.length_append] at hx
+        have hb' : isCharBoundary (utf8Encode cs) (x - (encodeChar c).length) = true := by
+          by_cases heq : x = (encodeChar c).length
+          · rw [heq]; simp [isCharBoundary]
+          · rw [← isCharBoundary_append _ _ _ (by omega)]; exact hb
+        obtain ⟨k, hk1, hk2⟩ := ih (x - (encodeChar c).length) (by omega) hb'
+        refine ⟨k + 1, ?_, ?_⟩
+        · simp only [utf8Encode, List.take_succ_cons]
+          rw [List.take_append, List.take_of_length_le hge, hk1]
+        · simp only [utf8Encode, List.drop_succ_cons]
+          rw [List.drop_append, List.drop_of_length_le hge, hk2]; rfl
+
+theorem isCont_iff (b : Nat) : isCont b = true ↔ 0x80 ≤ b ∧ b < 0xC0 := by
+  simp [isCont]
+
+/-- decoding one encoded scalar gives it back -/
+theorem decodeChars_encode_cons (c : Nat) (hc : isScalar c = true) (rest : List Nat) :
+    decodeChars (encodeChar c ++ rest) = (decodeChars rest).map (fun cs => c :: cs) := by
+  have hs : c < 0xD800 ∨ (0xE000 ≤ c ∧ c < 0x110000) := by
+    simpa [isScalar] using hc
+  unfold encodeChar
+  by_cases h1 : c < 0x80
+  · simp only [h1, if_true, List.cons_append, List.nil_append]
+    rw [decodeChars.eq_def]; simp [h1]
+  · by_cases h2 : c < 0x800
+    · simp only [h1, h2, if_true, if_false, List.cons_append, List.nil_append]
+      rw [decodeChars.eq_def]
+      have a1 : ¬ (0xC0 + c / 64 < 0x80) := by omega
+      have a2 : 0xC0 + c / 64 < 0xE0 := by omega
+      have a3 : (0xC0 + c / 64 - 0xC0) * 64 + (0x80 + c % 64 - 0x80) = c := by omega
+      have a4 : isCont (0x80 + c % 64) = true := by rw [isCont_iff]; omega
+      have a5 : lenUtf8 c = 2 := by simp [lenUtf8, h1, h2]
+      simp only [a1, a2, a3, a4, a5, if_true, if_false, and_self, Nat.le_add_right]
+    · by_cases h3 : c < 0x10000
+      · simp only [h1, h2, h3, if_true, if_false, List.cons_append, List.nil_append]
+        rw [decodeChars.eq_def]
+        have a1 : ¬ (0xE0 + c / 4096 < 0x80) := by omega
+        have a2 : ¬ (0xE0 + c / 4096 < 0xE0) := by omega
+        have a2' : 0xE0 + c / 4096 < 0xF0 := by omega
+        have a3 : (0xE0 + c / 4096 - 0xE0) * 4096 + (0x80 + c / 64 % 64 - 0x80) * 64 + (0x80 + c % 64 - 0x80) = c := by omega
+        have a4 : isCont (0x80 + c / 64 % 64) = true := by rw [isCont_iff]; omega
+        have a4' : isCont (0x80 + c % 64) = true := by rw [isCont_iff]; omega
+        have a5 : lenUtf8 c = 3 := by simp [lenUtf8, h1, h2, h3]
+        simp only [a1, a2, a2', a3, a4, a4', a5, hc, if_true, if_false, and_self]
+      · simp only [h1, h2, h3, if_false, List.cons_append, List.nil_append]
+        rw [decodeChars.eq_def]
+        have a1 : ¬ (0xF0 + c / 262144 < 0x80) := by omega
+        have a2 : ¬ (0xF0 + c / 262144 < 0xE0) := by omega
+        have a2' : ¬ (0xF0 + c / 262144 < 0xF0) := by omega
+        have a2'' : 0xF0 + c / 262144 < 0xF8 := by omega
+        have a3 : (0xF0 + c / 262144 - 0xF0) * 262144 + (0x80 + c / 4096 % 64 - 0x80) * 4096 + (0x80 + c / 64 % 64 - 0x80) * 64 + (0x80 + c % 64 - 0x80) = c := by omega
+        have a4 : isCont (0x80 + c / 4096 % 64) = true := by rw [isCont_iff]; omega
+        have a4' : isCont (0x80 + c / 64 % 64) = true := by rw [isCont_iff]; omega
+        have a4'' : isCont (0x80 + c % 64) = true := by rw [isCont_iff]; omega
+        have a5 : lenUtf8 c = 4 := by simp [lenUtf8, h1, h2, h3]
+        simp only [a1, a2, a2', a2'', a3, a4, a4', a4'', a5, hc, if_true, if_false, and_self]
+
+theorem decodeChars_encode (cs : List Nat) (hcs : ∀ c ∈ cs, isScalar c = true) :
+    decodeChars (utf8Encode cs) = some cs := by
+  induction cs with
+  | nil => simp [utf8Encode, decodeChars]
+  | cons c cs ih =>
+    simp only [utf8Encode]
+    rw [decodeChars_encode_cons c (hcs c (by simp)), ih (fun x hx => hcs x (by simp [hx]))]
+    rfl
+
+theorem lenUtf8_eq_2 (c : Nat) : lenUtf8 c = 2 ↔ 0x80 ≤ c ∧ c < 0x800 := by
+  unfold lenUtf8; (repeat' split) <;> omega
+theorem lenUtf8_eq_3 (c : Nat) : lenUtf8 c = 3 ↔ 0x800 ≤ c ∧ c < 0x10000 := by
+  unfold lenUtf8; (repeat' split) <;> omega
+theorem lenUtf8_eq_4 (c : Nat) : lenUtf8 c = 4 ↔ 0x10000 ≤ c := by
+  unfold lenUtf8; (repeat' split) <;> omega
+theorem lenUtf8_eq_1 (c : Nat) : lenUtf8 c = 1 ↔ c < 0x80 := by
+  unfold lenUtf8; (repeat' split) <;> omega
+
+theorem map_cons_eq_some {o : Option (List Nat)} {c : Nat} {cs : List Nat}
+    (h : o.map (fun t => c :: t) = some cs) : ∃ cs', o = some cs' ∧ cs = c :: cs' := by
+  cases o with
+  | none => simp at h
+  | some t => simp at h; exact ⟨t, rfl, h.symm⟩
+
+/-- the strict decoder only accepts encodings of scalar sequences (`str::from_utf8` is sound) -/
+theorem decodeChars_sound (n : Nat) : ∀ (bs cs : List Nat), bs.length ≤ n → decodeChars bs = some cs →
+    bs = utf8Encode cs ∧ ∀ c ∈ cs, isScalar c = true := by
+  induction n with
+  | zero =>
+    intro bs cs hl h
+    have : bs = [] := by cases bs <;> simp_all
+    subst this
+    simp [decodeChars] at h; subst h; simp [utf8Encode]
+  | succ n ih =>
+    intro bs cs hl h
+    cases bs with
+    | nil => simp [decodeChars] at h; subst h; simp [utf8Encode]
+    | cons b0 rest =>
+      rw [decodeChars.eq_def] at h
+      simp only at h
+      by_cases h0 : b0 < 0x80
+      · simp only [h0, if_true] at h
+        obtain ⟨cs', hd, rfl⟩ := map_cons_eq_some h
+        obtain ⟨e1, e2⟩ := ih rest cs' (by simp at hl; omega) hd
+        refine ⟨?_, ?_⟩
+        · simp only [utf8Encode, encodeChar, h0, if_true, ← e1]; rfl
+        · intro c hc; simp at hc; rcases hc with rfl | hc
+          · simp [isScalar]; omega
+          · exact e2 c hc
+      · simp only [h0, if_false] at h
+        cases rest with
+        | nil => simp at h
+        | cons b1 rest1 =>
+          simp only at h
+          by_cases h1 : b0 < 0xE0
+          · simp only [h1, if_true] at h
+            split at h
+            · rename_i hcond
+              obtain ⟨g1, g2, g3⟩ := hcond
+              rw [isCont_iff] at g2
+              obtain ⟨cs', hd, rfl⟩ := map_cons_eq_some h
+              obtain ⟨e1, e2⟩ := ih rest1 cs' (by simp at hl; omega) hd
+              have hc2 : 0x80 ≤ (b0 - 0xC0) * 64 + (b1 - 0x80) ∧ (b0 - 0xC0) * 64 + (b1 - 0x80) < 0x800 := by
+                exact (lenUtf8_eq_2 _).1 g3
+              refine ⟨?_, ?_⟩
+              · simp only [utf8Encode, ← e1]
+                have : encodeChar ((b0 - 0xC0) * 64 + (b1 - 0x80)) = [b0, b1] := by
+                  unfold encodeChar
+                  rw [if_neg (by omega), if_pos (by omega)]
+                  have q0 : 0xC0 + ((b0 - 0xC0) * 64 + (b1 - 0x80)) / 64 = b0 := by omega
+                  have q1 : 0x80 + ((b0 - 0xC0) * 64 + (b1 - 0x80)) % 64 = b1 := by omega
+                  rw [q0, q1]
+                rw [this]; rfl
+              · intro c hc
+                rcases List.mem_cons.1 hc with hc | hc
+                · rw [hc]; simp only [isScalar, Bool.or_eq_true, decide_eq_true_eq]; omega
+                · exact e2 c hc
+            · simp at h
+          · simp only [h1, if_false] at h
+            cases rest1 with
+            | nil => simp at h
+            | cons b2 rest2 =>
+              simp only at h
+              by_cases h2 : b0 < 0xF0
+              · simp only [h2, if_true] at h
+                split at h
+                · rename_i hcond
+                  obtain ⟨g1, g2, g3, g4⟩ := hcond
+                  rw [isCont_iff] at g1 g2
+                  obtain ⟨cs', hd, rfl⟩ := map_cons_eq_some h
+                  obtain ⟨e1, e2⟩ := ih rest2 cs' (by simp at hl; omega) hd
+                  have hc3 : 0x800 ≤ (b0 - 0xE0) * 4096 + (b1 - 0x80) * 64 + (b2 - 0x80) ∧
+                      (b0 - 0xE0) * 4096 + (b1 - 0x80) * 64 + (b2 - 0x80) < 0x10000 := by
+                    exact (lenUtf8_eq_3 _).1 g3
+                  refine ⟨?_, ?_⟩
+                  · simp only [utf8Encode, ← e1]
+                    have : encodeChar ((b0 - 0xE0) * 4096 + (b1 - 0x80) * 64 + (b2 - 0x80)) = [b0, b1, b2] := by
+                      unfold encodeChar
+                      rw [if_neg (by omega), if_neg (by omega), if_pos (by omega)]
+                      have q0 : 0xE0 + ((b0 - 0xE0) * 4096 + (b1 - 0x80) * 64 + (b2 - 0x80)) / 4096 = b0 := by omega
+                      have q1 : 0x80 + ((b0 - 0xE0) * 4096 + (b1 - 0x80) * 64 + (b2 - 0x80)) / 64 % 64 = b1 := by omega
+                      have q2 : 0x80 + ((b0 - 0xE0) * 4096 + (b1 - 0x80) * 64 + (b2 - 0x80)) % 64 = b2 := by omega
+                      rw [q0, q1, q2]
+                    rw [this]; rfl
+                  · intro c hc
+                    rcases List.mem_cons.1 hc with hc | hc
+                    · rw [hc]; exact g4
+                    · exact e2 c hc
+                · simp at h
+              · simp only [h2, if_false] at h
+                cases rest2 with
+                | nil => simp at h
+                | cons b3 rest3 =>
+                  simp only at h
+                  split at h
+                  · rename_i hcond
+                    obtain ⟨g0, g1, g2, g3, g4, g5⟩ := hcond
+                    rw [isCont_iff] at g1 g2 g3
+                    obtain ⟨cs', hd, rfl⟩ := map_cons_eq_some h
+                    obtain ⟨e1, e2⟩ := ih rest3 cs' (by simp at hl; omega) hd
+                    have hc4 : 0x10000 ≤ (b0 - 0xF0) * 262144 + (b1 - 0x80) * 4096 + (b2 - 0x80) * 64 + (b3 - 0x80) := by
+                      exact (lenUtf8_eq_4 _).1 g4
+                    refine ⟨?_, ?_⟩
+                    · simp only [utf8Encode, ← e1]
+                      have : encodeChar ((b0 - 0xF0) * 262144 + (b1 - 0x80) * 4096 + (b2 - 0x80) * 64 + (b3 - 0x80)) = [b0, b1, b2, b3] := by
+                        unfold encodeChar
+                        rw [if_neg (by omega), if_neg (by omega), if_neg (by omega)]
+                        have q0 : 0xF0 + ((b0 - 0xF0) * 262144 + (b1 - 0x80) * 4096 + (b2 - 0x80) * 64 + (b3 - 0x80)) / 262144 = b0 := by omega
+                        have q1 : 0x80 + ((b0 - 0xF0) * 262144 + (b1 - 0x80) * 4096 + (b2 - 0x80) * 64 + (b3 - 0x80)) / 4096 % 64 = b1 := by omega
+                        have q2 : 0x80 + ((b0 - 0xF0) * 262144 + (b1 - 0x80) * 4096 + (b2 - 0x80) * 64 + (b3 - 0x80)) / 64 % 64 = b2 := by omega
+                        have q3 : 0x80 + ((b0 - 0xF0) * 262144 + (b1 - 0x80) * 4096 + (b2 - 0x80) * 64 + (b3 - 0x80)) % 64 = b3 := by omega
+                        rw [q0, q1, q2, q3]
+                      rw [this]; rfl
+                    · intro c hc
+                      rcases List.mem_cons.1 hc with hc | hc
+                      · rw [hc]; exact g5
+                      · exact e2 c hc
+                  · simp at h
+
+theorem lenUtf8_cases (c : Nat) : lenUtf8 c = 1 ∨ lenUtf8 c = 2 ∨ lenUtf8 c = 3 ∨ lenUtf8 c = 4 := by
+  unfold lenUtf8; (repeat' split) <;> omega
+
+/-- UTF-8 is order preserving: the successor of a char, when it has the same width, has a
+strictly greater encoding -/
+theorem encodeChar_succ_lt (c : Nat) (h : lenUtf8 (c + 1) = lenUtf8 c) :
+    lexLt (encodeChar c) (encodeChar (c + 1)) = true := by
+  rcases lenUtf8_cases c with h1 | h2 | h3 | h4
+  · rw [h1] at h
+    have a := (lenUtf8_eq_1 _).1 h1
+    have b := (lenUtf8_eq_1 _).1 h
+    unfold encodeChar
+    rw [if_pos a, if_pos b]
+    simp [lexLt]
+  · rw [h2] at h
+    have a := (lenUtf8_eq_2 _).1 h2
+    have b := (lenUtf8_eq_2 _).1 h
+    unfold encodeChar
+    rw [if_neg (by omega), if_pos a.2, if_neg (by omega), if_pos b.2]
+    simp only [lexLt, Bool.or_eq_true, Bool.and_eq_true, decide_eq_true_eq, Bool.or_false, Bool.and_false]
+    omega
+  · rw [h3] at h
+    have a := (lenUtf8_eq_3 _).1 h3
+    have b := (lenUtf8_eq_3 _).1 h
+    unfold encodeChar
+    rw [if_neg (by omega), if_neg (by omega), if_pos a.2, if_neg (by omega), if_neg (by omega), if_pos b.2]
+    simp only [lexLt, Bool.or_eq_true, Bool.and_eq_true, decide_eq_true_eq, Bool.or_false, Bool.and_false]
+    omega
+  · rw [h4] at h
+    have a := (lenUtf8_eq_4 _).1 h4
+    have b := (lenUtf8_eq_4 _).1 h
+    unfold encodeChar
+    rw [if_neg (by omega), if_neg (by omega), if_neg (by omega), if_neg (by omega), if_neg (by omega), if_neg (by omega)]
+    simp only [lexLt, Bool.or_eq_true, Bool.and_eq_true, decide_eq_true_eq, Bool.or_false, Bool.and_false]
+    omega
+
+theorem lexLt_append_of_lt (a : List Nat) : ∀ (b s t : List Nat), a.length = b.length → lexLt a b = true →
+    lexLt (a ++ s) (b ++ t) = true := by
+  induction a with
+  | nil => intro b s t hl h; cases b <;> simp_all [lexLt]
+  | cons x xs ih =>
+    intro b s t hl h
+    cases b with
+    | nil => simp at hl
+    | cons y ys =>
+      simp only [lexLt, Bool.or_eq_true, Bool.and_eq_true, decide_eq_true_eq, List.cons_append] at h ⊢
+      rcases h with h | ⟨h1, h2⟩
+      · exact Or.inl h
+      · exact Or.inr ⟨h1, ih ys s t (by simpa using hl) h2⟩
+
+/-- result of `increment_utf8`: some char `c` of the string is replaced by `c+1` (a scalar
+of the same width), everything after it is dropped -/
+theorem incrementUtf8Rev_some (rcs : List Nat) : ∀ r, incrementUtf8Rev rcs = some r →
+    ∃ before c after, rcs.reverse = before ++ c :: after ∧ r = utf8Encode before ++ encodeChar (c + 1) ∧
+      isScalar (c + 1) = true ∧ lenUtf8 (c + 1) = lenUtf8 c := by
+  induction rcs with
+  | nil => intro r h; simp [incrementUtf8Rev] at h
+  | cons c before ih =>
+    intro r h
+    simp only [incrementUtf8Rev] at h
+    split at h
+    · rename_i hc
+      simp only [Option.some.injEq] at h
+      exact ⟨before.reverse, c, [], by simp, h.symm, hc.1, hc.2⟩
+    · obtain ⟨b, c', a, h1, h2, h3, h4⟩ := ih r h
+      exact ⟨b, c', a ++ [c], by simp [h1], h2, h3, h4⟩
+
+theorem incrementUtf8Rev_none (rcs : List Nat) : incrementUtf8Rev rcs = none ↔
+    ∀ c ∈ rcs, ¬ (isScalar (c + 1) = true ∧ lenUtf8 (c + 1) = lenUtf8 c) := by
+  induction rcs with
+  | nil => simp [incrementUtf8Rev]
+  | cons c before ih =>
+    simp only [incrementUtf8Rev]
+    split
+    · rename_i hc
+      simp only [reduceCtorEq, false_iff]
+      intro h; exact h c (by simp) hc
+    · rename_i hc
+      rw [ih]
+      constructor
+      · intro h x hx; simp at hx; rcases hx with rfl | hx
+        · exact hc
+        · exact h x hx
+      · intro h x hx; exact h x (by simp [hx])
+
+theorem rfind_some (p : Nat → Bool) (lo : Nat) : ∀ (hi x : Nat), rfind p lo hi = some x →
+    lo ≤ x ∧ x ≤ hi ∧ p x = true := by
+  intro hi
+  induction hi with
+  | zero =>
+    intro x h
+    simp only [rfind] at h
+    split at h
+    · rename_i hc; simp at h; subst h; exact ⟨by omega, by omega, hc.2⟩
+    · simp at h
+  | succ n ih =>
+    intro x h
+    simp only [rfind] at h
+    split at h
+    · simp at h
+    · split at h
+      · rename_i h1 h2; simp at h; subst h; exact ⟨by omega, by omega, h2⟩
+      · obtain ⟨a, b, c⟩ := ih x h; exact ⟨a, by omega, c⟩
+
+/-- **`truncate_and_increment_utf8` returns a strict upper bound and valid UTF-8** -/
+theorem truncateAndIncrementUtf8_ok (cs : List Nat) (hcs : ∀ c ∈ cs, isScalar c = true) (l : Nat) (r : List Nat)
+    (h : truncateAndIncrementUtf8 (utf8Encode cs) l = some r) :
+    lexLt (utf8Encode cs) r = true ∧ ValidUtf8 r ∧ r.length ≤ l := by
+  simp only [truncateAndIncrementUtf8] at h
+  cases hf : rfind (isCharBoundary (utf8Encode cs)) (l - UTF8_BACK) l with
+  | none => rw [hf] at h; simp at h
+  | some split =>
+    rw [hf] at h
+    simp only [Option.bind_some] at h
+    split at h
+    · rename_i hb
+      obtain ⟨k, hk1, hk2⟩ := boundary_split cs split hb.2 hb.1
+      have hsc : ∀ c ∈ cs.take k, isScalar c = true := fun c hc => hcs c (List.mem_of_mem_take hc)
+      rw [hk1, decodeChars_encode _ hsc] at h
+      simp only [Option.bind_some, incrementUtf8] at h
+      obtain ⟨before, c, after, e1, e2, e3, e4⟩ := incrementUtf8Rev_some _ r h
+      rw [List.reverse_reverse] at e1
+      have hdata : utf8Encode cs = utf8Encode before ++ (encodeChar c ++ (utf8Encode after ++ utf8Encode (cs.drop k))) := by
+        conv => lhs; rw [← List.take_append_drop k cs, utf8Encode_append, e1, utf8Encode_append]
+        simp [utf8Encode, List.append_assoc]
+      refine ⟨?_, ?_, ?_⟩
+      · rw [hdata, e2, lexLt_append_left]
+        have := lexLt_append_of_lt (encodeChar c) (encodeChar (c + 1)) (utf8Encode after ++ utf8Encode (cs.drop k)) []
+          (by rw [encodeChar_length, encodeChar_length, e4]) (encodeChar_succ_lt c e4)
+        simpa using this
+      · refine ⟨before ++ [c + 1], ?_, ?_⟩
+        · intro x hx
+          simp at hx
+          rcases hx with hx | rfl
+          · exact hsc x (by rw [e1]; simp [hx])
+          · exact e3
+        · rw [e2, utf8Encode_append]; simp [utf8Encode]
+      · -- the result is no longer than the prefix it was computed from
+        have hlen : r.length ≤ ((utf8Encode cs).take split).length := by
+          rw [hk1, e1, e2, utf8Encode_append]
+          simp only [utf8Encode, List.length_append, encodeChar_length, e4]
+          omega
+        have hsl : split ≤ l := (rfind_some _ _ _ _ hf).2.1
+        simp only [List.length_take] at hlen
+        omega
+    · simp at h
+
+theorem isCharBoundary_le (data : List Nat) (x : Nat) (h : isCharBoundary data x = true) : x ≤ data.length := by
+  unfold isCharBoundary at h
+  by_cases hx : x = 0
+  · omega
+  · simp only [hx, if_false] at h
+    cases hg : data[x]? with
+    | none => rw [hg] at h; simp at h; omega
+    | some b =>
+      have := (List.getElem?_eq_some_iff.1 hg).1
+      omega
+
+/-- `truncate_utf8` returns the encoding of a non-empty prefix of the char sequence, at most `l` bytes -/
+theorem truncateUtf8_ok (cs : List Nat) (l : Nat) (t : List Nat) (h : truncateUtf8 (utf8Encode cs) l = some t) :
+    (∃ k, t = utf8Encode (cs.take k)) ∧ t.length ≤ l ∧ 1 ≤ t.length := by
+  unfold truncateUtf8 at h
+  cases hf : rfind (isCharBoundary (utf8Encode cs)) 1 l with
+  | none => rw [hf] at h; simp at h
+  | some split =>
+    rw [hf] at h
+    simp only [Option.map_some, Option.some.injEq] at h
+    obtain ⟨h1, h2, h3⟩ := rfind_some _ _ _ _ hf
+    have hle := isCharBoundary_le _ _ h3
+    obtain ⟨k, hk1, _⟩ := boundary_split cs split hle h3
+    subst h
+    exact ⟨⟨k, hk1⟩, by simp [List.length_take]; omega, by simp [List.length_take]; omega⟩
+
 end ArrowModel.C07
